@@ -405,6 +405,10 @@ def values(spec, depth=2):
                          st.sampled_from([[("a", 1)], [], "a", (("a", 1),), None]))
     else:
         raise AssertionError(kind)
+    if kind == "secure":
+        # a SecureField takes any object; an int n is "encrypted" as n zero bytes (bytearray(n)), so a huge int only
+        # burns minutes and gigabytes without reaching any new behaviour
+        return st.one_of(good, good, good, junk().map(lambda v: v % 4096 if isinstance(v, int) and not isinstance(v, bool) else v))
     return st.one_of(good, good, good, junk())
 
 
